@@ -231,7 +231,9 @@ def minimise(scenario, trace, viol, timeout, budget_s=40.0, max_execs=150, known
 
 
 def load_known():
-    p = os.path.join(VERIF, "known_findings.json")
+    if os.environ.get("HOSTSIM_NO_KNOWN") == "1":  # development aid: witnesses for known findings
+        return []
+    p = os.environ.get("HOSTSIM_KNOWN_FILE") or os.path.join(VERIF, "known_findings.json")
     if not os.path.exists(p):
         return []
     with open(p) as f:
@@ -272,24 +274,30 @@ def replay(scenario, path):
         print(f"HARNESS-ERROR: replay {status}: {res}")
         return 2
     exp = rp.get("violation", {})
-    got = [v for v in res["violations"] if _viol_key(v) == (exp.get("clause"), exp.get("cls"))]
     print(f"replay digest={res['digest']} expected={rp.get('digest')}")
-    if got:
-        v = got[0]
+    known = load_known()
+    rc = 0
+    same_key = [v for v in res["violations"] if _viol_key(v) == (exp.get("clause"), exp.get("cls"))]
+    if same_key:
+        v = same_key[0]
         print(f"reproduced: clause={v['clause']} cls={v.get('cls')} detail={v.get('detail')}")
-        k = match_known(load_known(), scenario.pid, v)
+    elif res["violations"]:
+        print("the recorded violation is not reproduced, but the trace violates the property differently")
+    else:
+        print("not reproduced: the trace executes without violation on this tree")
+    seen = set()
+    for v in res["violations"]:
+        k = match_known(known, scenario.pid, v)
         if k is not None:
-            print(f"KNOWN-FINDING: property={scenario.pid} {k['what']}")
-            return 0
+            if k["id"] not in seen:
+                seen.add(k["id"])
+                print(f"KNOWN-FINDING: property={scenario.pid} {k['what']}")
+        else:
+            rc = 1
+            print(f"  clause={v['clause']} cls={v.get('cls')} detail={str(v.get('detail'))[:300]}")
+    if rc:
         print(f"VIOLATION property={scenario.pid} replay={path}")
-        return 1
-    if res["violations"]:
-        v = res["violations"][0]
-        print(f"different violation: clause={v['clause']} cls={v.get('cls')} detail={v.get('detail')}")
-        print(f"VIOLATION property={scenario.pid} replay={path}")
-        return 1
-    print("not reproduced: the trace executes without violation on this tree")
-    return 0
+    return rc
 
 
 def main(scenario, argv=None):
